@@ -254,3 +254,39 @@ def from_str_cases():
         if c:
             out.append(c)
     return out
+
+
+def validate_cases():
+    """a cast rule and a cast-free rule over the same node: the cast-free rule is judged on the ORIGINAL document,
+    the cast rule on the working copy (and `cast_data` is the copy)"""
+    from props import rules_common as rc
+    from props.c06 import make_cmp
+    out = []
+    S = str
+    mk = [
+        ("[Rule('a', Value.equal_to('5'), cast={str: int}), Rule('a', Value.equal_to(5))]", {"a": "5"},
+         lambda: [Rule(DP.DataPath("a"), C.Value.equal_to("5"), cast={S: int}), Rule(DP.DataPath("a"), C.Value.equal_to(5))]),
+        ("[Rule('a', Value.equal_to(5)), Rule('a', Value.equal_to('5'), cast={str: int})]", {"a": "5"},
+         lambda: [Rule(DP.DataPath("a"), C.Value.equal_to(5)), Rule(DP.DataPath("a"), C.Value.equal_to("5"), cast={S: int})]),
+        ("[Rule('a', Value.dtype.equal_to(str)), Rule('a', Value.dtype.equal_to(int), cast={str: int})]", {"a": "7", "b": "x"},
+         lambda: [Rule(DP.DataPath("a"), C.Value.dtype.equal_to(str)), Rule(DP.DataPath("a"), C.Value.dtype.equal_to(int), cast={S: int})]),
+        ("[Rule((MapValue(),), Value.dtype.equal_to(bool), cast={str: cast_string_to_bool}), Rule((MapValue(),), Value.dtype.equal_to(str))]",
+         {"a": "true", "b": "no", "c": "FALSE"},
+         lambda: [Rule(DP.DataPath(DP.MapValue()), C.Value.dtype.equal_to(bool), cast={S: cast_string_to_bool}),
+                  Rule(DP.DataPath(DP.MapValue()), C.Value.dtype.equal_to(str))]),
+        ("[Rule(('xs', ListValue()), Value.is_instance(int), cast={str: int}), Rule(('xs', ListValue()), Value.is_instance(str)), Rule(('xs',), Value.length.equal_to(3))]",
+         {"xs": ["1", "two", 3]},
+         lambda: [Rule(DP.DataPath("xs", DP.ListValue()), C.Value.is_instance(int), cast={S: int}),
+                  Rule(DP.DataPath("xs", DP.ListValue()), C.Value.is_instance(str)), Rule(DP.DataPath("xs"), C.ValueLength.equal_to(3))]),
+    ]
+    for text, doc, f in mk:
+        rules = f()
+        schema = Schema(list(rules))
+        applied = [next(i for i, o in enumerate(rules) if o is x) for x in schema.rules]
+        c = Case("corner_validate", {"rules": text, "doc": repr(doc)})
+        c.py = rc.PY_HEAD + f"v = Schema({text}).validate({doc!r})\nprint(v.is_valid, v.num_failures, v.cast_data, [[f.path for f in t.failures] for t in v.rule_tests])"
+        impl = enc.outcome(lambda: rc.obs_validated(schema.validate(copy.deepcopy(doc)), applied))
+        c.ask(["validate", [enc.enc_rule(o) for o in rules], enc.enc_val(doc)], impl, "validate", make_cmp(False, True))
+        c.features.add(("corner", "validate", text[:40]))
+        out.append(c)
+    return out
